@@ -131,7 +131,8 @@ Arguments is_none {A} o.
 Definition cp_step (c : cfg) (m : mon) (v : list N) (r : out) (req : bool) : verdict * mon :=
   match v with
   | [] => (Ok, m)
-  | opc :: _ =>
+  | opc0 :: _ =>
+      let opc := opc0 mod 256 in
       if opc =? 3 then
         let accepted := match ost r with SOk => true | SNone => existsb is_rm (ocalls r) | _ => false end in
         if accepted then
@@ -191,8 +192,12 @@ Definition progress_step (m : mon) (b : list N) : verdict * mon :=
 
 Definition cp_ntf_step (m : mon) (b : list N) : verdict * mon :=
   match wp m, b with
-  | Some _, 3 :: _ :: crc => if eqb_list crc (le32 (chain m)) then (Ok, m) else (Bad t_crc, m)
-  | Some _, 5 :: rest => if eqb_list rest (le32 (chain m) ++ le16 (kpage m)) then (Ok, m) else (Bad t_crc, m)
+  | Some _, x :: rest =>
+      if x =? 3 then
+        if eqb_list (skipn 1 rest) (le32 (chain m)) then (Ok, m) else (Bad t_crc, m)
+      else if x =? 5 then
+        if eqb_list rest (le32 (chain m) ++ le16 (kpage m)) then (Ok, m) else (Bad t_crc, m)
+      else (Ok, m)
   | _, _ => (Ok, m)
   end.
 
